@@ -743,7 +743,9 @@ const clockHelpers = `func verifNowT() time.Time {
 	if h := VerifClock; h != nil {
 		return time.Unix(0, h())
 	}
-	return time.Now()
+	// package initialisation, before the simulator is attached: the start of
+	// logical time (the copy never reads the real clock)
+	return time.Unix(0, 1_700_000_000_000_000_000)
 }
 
 func verifNow(_ func() time.Time) time.Time { return verifNowT() }
